@@ -64,6 +64,14 @@ def plan_features(P, steps):
                 fs.add("lopen-cond")
             if c["iv"]["ropen"]:
                 fs.add("ropen-cond")
+            # a condition interval that contains no instant under this step's duration: [t, t) or (t, t]
+            if a["kind"] != "inst" and (c["iv"]["lopen"] or c["iv"]["ropen"]):
+                def at(tm):
+                    base = {"start": frac(st["t"]), "end": frac(st["t"]) + frac(st["d"])}.get(tm["from"])
+                    return None if base is None else base + frac(tm["delay"])
+                lo, hi = at(c["iv"]["lo"]), at(c["iv"]["hi"])
+                if lo is not None and lo == hi:
+                    fs.add("empty-cond-interval")
     for tg in P.get("timed_goals", []):
         if tg["iv"]["lopen"]:
             fs.add("lopen-tgoal")
